@@ -131,6 +131,8 @@ func (lt *LockTable) lockPath(v ssa.Value) string {
 			return "v:" + x.Name()
 		case *ssa.Phi:
 			return "v:" + x.Name()
+		case *ssa.Alloc:
+			return "c:" + x.Name()
 		default:
 			if v == nil {
 				return "?"
@@ -334,7 +336,7 @@ func (lw *LockWalk) Run() {
 						keep = true
 					}
 				}
-				if !keep {
+				if !keep && !strings.HasPrefix(k, "c:") {
 					delete(st.alias, k)
 				}
 			}
@@ -371,6 +373,16 @@ func (lw *LockWalk) Run() {
 					release(st, d[2:], d[0] == 'R', in)
 				}
 				st.deferred = nil
+			case *ssa.Store:
+				// a local cell (closure-captured variable) is re-bound: loads of the cell now denote the stored value
+				if al, ok := x.Addr.(*ssa.Alloc); ok {
+					k := "c:" + al.Name()
+					delete(st.alias, k)
+					src := st.root(lt.lockPath(x.Val))
+					if src != k {
+						st.alias[k] = src
+					}
+				}
 			case *ssa.Go:
 				// the spawned goroutine has its own lock state
 			case *ssa.Call:
@@ -391,14 +403,23 @@ func (lw *LockWalk) Run() {
 				case opRUnlock:
 					release(st, name, true, in)
 				default:
+					var acq map[string]string
+					var rel []string
 					if lw.CallEffect != nil {
-						acq, rel := lw.CallEffect(x, st)
-						for _, n := range rel {
-							release(st, n, st.held[st.root(n)] == "R", in)
+						acq, rel = lw.CallEffect(x, st)
+					}
+					if acq == nil && rel == nil {
+						var ok bool
+						acq, rel, ok = lw.closureEffect(x)
+						if !ok {
+							issue("closure-with-conditional-lock-ops", in, "", st)
 						}
-						for n, m := range acq {
-							st.held[st.root(n)] = m
-						}
+					}
+					for _, n := range rel {
+						release(st, n, st.held[st.root(n)] == "R", in)
+					}
+					for n, m := range acq {
+						st.held[st.root(n)] = m
 					}
 				}
 			case *ssa.Return:
@@ -428,4 +449,84 @@ func (lw *LockWalk) Run() {
 			work = append(work, item{succ, it.b, st})
 		}
 	}
+}
+
+// closureEffect summarises a call of a closure defined in the walked function: the lock operations
+// its body performs unconditionally on captured variables, translated to the caller's cells.
+// ok=false when the closure performs lock operations under branches (not modelled).
+func (lw *LockWalk) closureEffect(c *ssa.Call) (acq map[string]string, rel []string, ok bool) {
+	var fn *ssa.Function
+	var bindings []ssa.Value
+	switch v := c.Call.Value.(type) {
+	case *ssa.MakeClosure:
+		fn, _ = v.Fn.(*ssa.Function)
+		bindings = v.Bindings
+	default:
+		// closure stored in a local cell: `f := func(){...}; f()`
+		if mc, isMC := resolveCell(c.Call.Value).(*ssa.MakeClosure); isMC {
+			fn, _ = mc.Fn.(*ssa.Function)
+			bindings = mc.Bindings
+		}
+	}
+	if fn == nil || fn.Parent() != lw.Fn {
+		return nil, nil, true
+	}
+	lt := lw.W.LockTable()
+	translate := func(p string) string {
+		for i, fv := range fn.FreeVars {
+			pre := "fv:" + fv.Name()
+			if p == pre || strings.HasPrefix(p, pre+".") {
+				if i < len(bindings) {
+					return lt.lockPath(bindings[i]) + p[len(pre):]
+				}
+			}
+		}
+		return p
+	}
+	acq = map[string]string{}
+	for _, b := range fn.Blocks {
+		for _, in := range b.Instrs {
+			call, isCall := in.(*ssa.Call)
+			if !isCall {
+				continue
+			}
+			op, name := lt.classify(call)
+			if op == opNone {
+				continue
+			}
+			if b != fn.Blocks[0] && len(fn.Blocks) > 1 {
+				// lock op outside the entry block: conditional unless the function is straight-line
+				if !straightLine(fn) {
+					return nil, nil, false
+				}
+			}
+			switch op {
+			case opLock:
+				acq[translate(name)] = "W"
+			case opRLock:
+				acq[translate(name)] = "R"
+			case opUnlock, opRUnlock:
+				rel = append(rel, translate(name))
+			}
+		}
+	}
+	return acq, rel, true
+}
+
+func straightLine(fn *ssa.Function) bool {
+	for _, b := range fn.Blocks {
+		if len(b.Succs) > 1 {
+			// a constant-pruned If is still straight-line
+			live := 0
+			for s := range b.Succs {
+				if !constCut(b, s) {
+					live++
+				}
+			}
+			if live > 1 {
+				return false
+			}
+		}
+	}
+	return true
 }
